@@ -20,6 +20,7 @@ def run(rep, tier, seed):
         dict(name="bcast_D3P2", D=3, P=2, pool="PoolBcast", acts="ActsArith", scal="ScalSet", maxlen=1),
         dict(name="scal_D3P2", D=3, P=2, pool="PoolScal", acts="ActsArith", maxlen=1 if q else 2),
         dict(name="mat_D2", D=2, P=1, pool="PoolMat", acts="ActsArith", maxlen=1 if q else 2),
+        dict(name="scal_P3_lastaxis_equals_P", D=2, P=3, pool="PoolScal", acts="ActsArith", maxlen=1),
         dict(name="vec_D4", D=4, P=1, pool="PoolVec2", acts="ActsArith", maxlen=1),
         # views and in-place operators (x op= view(x), x op= x.T)
         dict(name="alias_D3", D=3, P=1, pool="PoolMat22", acts="ActsAlias", idx="IdxSmall", maxlen=2, maxobjs=5),
